@@ -29,7 +29,7 @@ HIST = ["put_sibling", "put_same_name", "put_elsewhere", "restore_other", "rm_ot
 
 
 def examples(tier):
-    return 6000 if tier == "quick" else 100000
+    return 6000 if tier == "quick" else 60000
 
 
 @st.composite
